@@ -122,6 +122,23 @@ pub fn suite_c13(ctx: &mut Ctx) {
                     gcall(ctx, t, n, 0, op, "m", &[store(n, a), store(n, b), store(n, c)]);
                 }
             }
+            // products whose exact value is a rounding tie plus one far lower bit, alone and fused with an addend at
+            // every distance (with and without a carry): the sticky bookkeeping of mul / mul_add
+            if n >= 8 {
+                let cnt = if n >= 28 { ctx.q(1500, 20_000) } else { ctx.q(150, 2000) };
+                let (lp, lt) = crate::drive::lone_bit_cases(ctx, n, es, cnt);
+                for &(a, b) in &lp {
+                    gcall(ctx, t, n, 0, "mul", "o", &[store(n, a), store(n, b)]);
+                }
+                for (i, &(a, b, c)) in lt.iter().enumerate() {
+                    let (a, c) = if i % 2 == 1 { (gen::neg(n, a), gen::neg(n, c)) } else { (a, c) };
+                    gcall(ctx, t, n, 0, "mul_add", "m", &[store(n, a), store(n, b), store(n, c)]);
+                    if i % 3 == 0 {
+                        gcall(ctx, t, n, 0, "mul_sub", "m", &[store(n, a), store(n, b), store(n, gen::neg(n, c))]);
+                        gcall(ctx, t, n, 0, "sub_product", "m", &[store(n, c), store(n, gen::neg(n, a)), store(n, b)]);
+                    }
+                }
+            }
             // unary: sqrt (PxE2 only), round, neg
             let xs = patterns(ctx, t, n, 12, 400);
             for &a in &xs {
